@@ -53,6 +53,62 @@ type c19LoopScenario struct {
 	TrunkAttached int `json:"trunk_attached"` // 0 no trunk ENI in the CR status, 1 attached and InUse, 2 still Attaching
 	StaleAnno     int `json:"stale_anno"`     // pre-existing max-available-ip annotation (0 = none)
 	Rounds        int `json:"rounds"`         // controller reconciles after the daemon reported
+
+	// Resize: the same instance (same instance id, same node) is stopped, changed to
+	// another instance type and started again: the instance-type label changes and the
+	// whole loop runs once more; everything advertised must then fit the NEW type.
+	Resize *c19Vec `json:"resize,omitempty"`
+}
+
+// c19Vec is an instance-type description.
+type c19Vec struct {
+	EniQuantity      int  `json:"eni_quantity"`
+	EniTotalQuantity int  `json:"eni_total_quantity"`
+	V4               int  `json:"v4_per_eni"`
+	V6               int  `json:"v6_per_eni"`
+	Eri              int  `json:"eri_quantity"`
+	Trunk            bool `json:"trunk_supported"`
+}
+
+func (v c19Vec) instanceType(id string) ecs.InstanceType {
+	return ecs.InstanceType{
+		InstanceTypeId: id, EniQuantity: v.EniQuantity, EniTotalQuantity: v.EniTotalQuantity,
+		EniPrivateIpAddressQuantity: v.V4, EniIpv6AddressQuantity: v.V6, EriQuantity: v.Eri, EniTrunkSupported: v.Trunk,
+	}
+}
+
+// caps: what an instance of this type can deliver, from the raw description only.
+func (v c19Vec) caps() c19Caps {
+	caps := c19Caps{Slots: v.EniQuantity - 1, V4: v.V4, V6: v.V6, Eri: v.Eri}
+	if v.Trunk {
+		caps.Member = v.EniTotalQuantity - v.EniQuantity
+	}
+	if caps.Eri > caps.Slots {
+		caps.Eri = caps.Slots
+	}
+	return caps
+}
+
+// c19GenResize draws the type an instance is changed to: half of the time a smaller
+// one (every field <= the old one), otherwise unrelated.
+func c19GenResize(t *rapid.T, a c19Vec) *c19Vec {
+	b := c19Vec{}
+	if rapid.Bool().Draw(t, "resizeSmaller") {
+		b.EniQuantity = rapid.IntRange(1, a.EniQuantity).Draw(t, "bEniQuantity")
+		b.EniTotalQuantity = b.EniQuantity + rapid.IntRange(0, a.EniTotalQuantity-a.EniQuantity).Draw(t, "bMembers")
+		b.V4 = rapid.IntRange(1, a.V4).Draw(t, "bV4")
+		b.V6 = rapid.SampledFrom([]int{0, b.V4, a.V6}).Draw(t, "bV6")
+		b.Eri = rapid.IntRange(0, a.Eri).Draw(t, "bEri")
+		b.Trunk = a.Trunk && rapid.Bool().Draw(t, "bTrunk")
+	} else {
+		b.EniQuantity = rapid.IntRange(1, 32).Draw(t, "bEniQuantity")
+		b.EniTotalQuantity = b.EniQuantity + rapid.IntRange(0, 120).Draw(t, "bMembers")
+		b.V4 = rapid.IntRange(1, 50).Draw(t, "bV4")
+		b.V6 = rapid.SampledFrom([]int{0, b.V4, 1}).Draw(t, "bV6")
+		b.Eri = rapid.IntRange(0, 4).Draw(t, "bEri")
+		b.Trunk = rapid.Bool().Draw(t, "bTrunk")
+	}
+	return &b
 }
 
 func c19GenLoop(t *rapid.T) c19LoopScenario {
@@ -86,6 +142,9 @@ func c19GenLoop(t *rapid.T) c19LoopScenario {
 		s.StaleAnno = rapid.SampledFrom([]int{1, 7, 99999}).Draw(t, "staleAnno")
 	}
 	s.Rounds = rapid.IntRange(1, 2).Draw(t, "rounds")
+	if !s.LinJun && rapid.SampledFrom([]bool{false, true, true}).Draw(t, "resize") {
+		s.Resize = c19GenResize(t, c19Vec{s.EniQuantity, s.EniTotalQuantity, s.V4, s.V6, s.Eri, s.Trunk})
+	}
 	return s
 }
 
@@ -124,7 +183,8 @@ func c19RunLoop(c *vt.Ctx, s c19LoopScenario) {
 	aliyunClient.LimitProviders["ecs"] = aliyunClient.NewECSLimitProvider()
 	c19DrainNotify()
 
-	const typeID = "ecs.c19.large"
+	const typeA, typeB = "ecs.c19.large", "ecs.c19b.large"
+	vecA := c19Vec{s.EniQuantity, s.EniTotalQuantity, s.V4, s.V6, s.Eri, s.Trunk}
 	cloud := &c19Cloud{eflo: &eflo.Content{LeniQuota: s.LeniQuota, LniSipQuota: s.LniSipQuota}}
 	for i := 0; i < s.Noise; i++ {
 		cloud.types = append(cloud.types, ecs.InstanceType{
@@ -132,16 +192,16 @@ func c19RunLoop(c *vt.Ctx, s c19LoopScenario) {
 			EniPrivateIpAddressQuantity: 100, EniIpv6AddressQuantity: 100, EriQuantity: 8, EniTrunkSupported: true,
 		})
 	}
-	cloud.types = append(cloud.types, ecs.InstanceType{
-		InstanceTypeId: typeID, EniQuantity: s.EniQuantity, EniTotalQuantity: s.EniTotalQuantity,
-		EniPrivateIpAddressQuantity: s.V4, EniIpv6AddressQuantity: s.V6, EriQuantity: s.Eri, EniTrunkSupported: s.Trunk,
-	})
+	cloud.types = append(cloud.types, vecA.instanceType(typeA))
+	if s.Resize != nil {
+		cloud.types = append(cloud.types, s.Resize.instanceType(typeB))
+	}
 
 	k8sNode := &corev1.Node{
 		ObjectMeta: metav1.ObjectMeta{
 			Name: c19NodeName,
 			Labels: map[string]string{
-				corev1.LabelInstanceTypeStable: typeID,
+				corev1.LabelInstanceTypeStable: typeA,
 				corev1.LabelTopologyZone:       c19Zone,
 				corev1.LabelTopologyRegion:     "cn-hangzhou",
 			},
@@ -182,120 +242,147 @@ func c19RunLoop(c *vt.Ctx, s c19LoopScenario) {
 		}
 	}
 
-	// what the instance can deliver, from the raw description only
-	caps := c19Caps{Slots: s.EniQuantity - 1, V4: s.V4, V6: s.V6, Eri: s.Eri}
-	if s.Trunk {
-		caps.Member = s.EniTotalQuantity - s.EniQuantity
-	}
-	if caps.Eri > caps.Slots {
-		caps.Eri = caps.Slots
-	}
+	capsA := vecA.caps()
 	if s.LinJun {
-		caps = c19Caps{Slots: s.LeniQuota - 1, V4: s.LniSipQuota}
+		capsA = c19Caps{Slots: s.LeniQuota - 1, V4: s.LniSipQuota}
 		c.Label("lingjun")
 	}
-	if c19Classify(c, s.Conf, caps, exclusive, s.OSERDMA) || s.StaleAnno > caps.Slots*caps.V4 {
+	nt := c19Classify(c, s.Conf, capsA, exclusive, s.OSERDMA) || s.StaleAnno > capsA.Slots*capsA.V4
+	if s.Resize != nil {
+		capsB := s.Resize.caps()
+		if capsB.Slots*capsB.V4 < capsA.Slots*capsA.V4 || capsB.Member < capsA.Member || capsB.Eri < capsA.Eri || (capsB.V6 == 0 && capsA.V6 > 0) {
+			c.Label("resize:shrinks")
+			nt = true // what was advertised for the old type is above the new limits
+		} else {
+			c.Label("resize:grows-or-same")
+		}
+	}
+	if nt {
 		c.NonTrivial()
 	}
 
-	// ---- 1. node controller creates the CR
-	controller("first", true)
-	// ---- 2. daemon-side reconcile
-	if _, err := dmn.Reconcile(ctx, req); err != nil {
-		c.Trace("daemon-side Reconcile failed: %v", err)
-		c.Inconclusive("daemon-side reconcile refused")
-	}
-	cr := &networkv1beta1.Node{}
-	if err := cl.Get(ctx, client.ObjectKey{Name: c19NodeName}, cr); err != nil {
-		c.Fatalf("get Node CR: %v", err)
-	}
-	c.Trace("CR after daemon reconcile: labels=%v cap=%+v eni=%+v flavor=%+v pool=%+v", cr.Labels, cr.Spec.NodeCap, cr.Spec.ENISpec, cr.Spec.Flavor, cr.Spec.Pool)
-	if got := terwayTypes.NodeExclusiveENIMode(cr.Labels) == terwayTypes.ExclusiveENIOnly; got != exclusive {
-		c.Fatalf("exclusive mode of the k8s node (%v) not carried to the Node CR (%v)", exclusive, got)
-	}
-	sum := c19CheckCR(c, "closed loop", cr, caps, exclusive, s.LinJun)
+	trunkAttached, trunkInUse := false, false
+	// one pass of the loop for the instance type the node currently has
+	pass := func(name string, caps c19Caps) {
+		// ---- 1. node controller creates / refreshes the CR
+		controller(name+"first", true)
+		// ---- 2. daemon-side reconcile
+		if _, err := dmn.Reconcile(ctx, req); err != nil {
+			c.Trace("%sdaemon-side Reconcile failed: %v", name, err)
+			c.Inconclusive("daemon-side reconcile refused")
+		}
+		cr := &networkv1beta1.Node{}
+		if err := cl.Get(ctx, client.ObjectKey{Name: c19NodeName}, cr); err != nil {
+			c.Fatalf("get Node CR: %v", err)
+		}
+		c.Trace("%sCR after daemon reconcile: labels=%v meta=%+v cap=%+v eni=%+v flavor=%+v pool=%+v", name, cr.Labels, cr.Spec.NodeMetadata, cr.Spec.NodeCap, cr.Spec.ENISpec, cr.Spec.Flavor, cr.Spec.Pool)
+		if got := terwayTypes.NodeExclusiveENIMode(cr.Labels) == terwayTypes.ExclusiveENIOnly; got != exclusive {
+			c.Fatalf("exclusive mode of the k8s node (%v) not carried to the Node CR (%v)", exclusive, got)
+		}
+		sum := c19CheckCR(c, name+"closed loop", cr, caps, exclusive, s.LinJun)
 
-	// ---- the pool controller attaches the trunk interface (if the flavor has one)
-	trunkInUse := false
-	if sum.Trunk > 0 && s.TrunkAttached != 0 {
-		st := aliyunClient.ENIStatusInUse
-		if s.TrunkAttached == 2 {
-			st = aliyunClient.ENIStatusAttaching
-		}
-		trunkInUse = s.TrunkAttached == 1
-		cr.Status.NetworkInterfaces = map[string]*networkv1beta1.NetworkInterface{
-			"eni-trunk": {ID: "eni-trunk", NetworkInterfaceType: networkv1beta1.ENITypeTrunk, Status: st},
-			"eni-1":     {ID: "eni-1", NetworkInterfaceType: networkv1beta1.ENITypeSecondary, Status: aliyunClient.ENIStatusInUse},
-		}
-		if err := cl.Status().Update(ctx, cr); err != nil {
-			c.Fatalf("harness: update Node CR status: %v", err)
-		}
-	}
-
-	// ---- 3. node controller publishes
-	for i := 0; i < s.Rounds; i++ {
-		controller("after-daemon", false)
-	}
-	got := &corev1.Node{}
-	if err := cl.Get(ctx, client.ObjectKey{Name: c19NodeName}, got); err != nil {
-		c.Fatalf("get node: %v", err)
-	}
-	c.Trace("node annotations %v allocatable %v capacity %v", got.Annotations, got.Status.Allocatable, got.Status.Capacity)
-
-	annoIP := -1
-	if v, ok := got.Annotations[string(terwayTypes.NormalIPTypeIPs)]; ok {
-		n, err := strconv.Atoi(v)
-		if err != nil {
-			c.Fatalf("annotation %s = %q is not a number", terwayTypes.NormalIPTypeIPs, v)
-		}
-		annoIP = n
-	}
-	quantity := func(name string) (int64, bool) {
-		a, okA := got.Status.Allocatable[corev1.ResourceName(name)]
-		cp, okC := got.Status.Capacity[corev1.ResourceName(name)]
-		if !okA && !okC {
-			return 0, false
-		}
-		v := a.Value()
-		if cp.Value() > v {
-			v = cp.Value()
-		}
-		return v, true
-	}
-	if s.LinJun {
-		if annoIP >= 0 && annoIP != s.StaleAnno {
-			c.Fatalf("LingJun node got max-available-ip = %d", annoIP)
-		}
-		return
-	}
-	if exclusive {
-		if annoIP > caps.Slots {
-			c.Fatalf("exclusive mode: max-available-ip = %d, the instance can attach %d secondary interfaces", annoIP, caps.Slots)
-		}
-		if q, ok := quantity(deviceplugin.ENIResName); ok {
-			if q < 0 || q > int64(caps.Slots) {
-				c.Fatalf("exclusive mode: %s = %d, the instance can attach %d secondary interfaces", deviceplugin.ENIResName, q, caps.Slots)
+		// ---- the pool controller attaches the trunk interface (if the flavor has one)
+		if sum.Trunk > 0 && s.TrunkAttached != 0 && !trunkAttached {
+			trunkAttached = true
+			st := aliyunClient.ENIStatusInUse
+			if s.TrunkAttached == 2 {
+				st = aliyunClient.ENIStatusAttaching
 			}
-			c.Label("res:eni")
+			trunkInUse = s.TrunkAttached == 1
+			cr.Status.NetworkInterfaces = map[string]*networkv1beta1.NetworkInterface{
+				"eni-trunk": {ID: "eni-trunk", NetworkInterfaceType: networkv1beta1.ENITypeTrunk, Status: st},
+				"eni-1":     {ID: "eni-1", NetworkInterfaceType: networkv1beta1.ENITypeSecondary, Status: aliyunClient.ENIStatusInUse},
+			}
+			if err := cl.Status().Update(ctx, cr); err != nil {
+				c.Fatalf("harness: update Node CR status: %v", err)
+			}
 		}
-	} else if annoIP > caps.Slots*caps.V4 {
-		c.Fatalf("max-available-ip = %d exceeds %d secondary interfaces x %d addresses", annoIP, caps.Slots, caps.V4)
+
+		// ---- 3. node controller publishes
+		for i := 0; i < s.Rounds; i++ {
+			controller(name+"after-daemon", false)
+		}
+		got := &corev1.Node{}
+		if err := cl.Get(ctx, client.ObjectKey{Name: c19NodeName}, got); err != nil {
+			c.Fatalf("get node: %v", err)
+		}
+		c.Trace("%snode annotations %v allocatable %v capacity %v", name, got.Annotations, got.Status.Allocatable, got.Status.Capacity)
+		if c.Replaying() {
+			c.Logf("%sCR cap=%+v flavor=%+v; node annotations %v allocatable %v", name, cr.Spec.NodeCap, cr.Spec.Flavor, got.Annotations, got.Status.Allocatable)
+		}
+
+		annoIP := -1
+		if v, ok := got.Annotations[string(terwayTypes.NormalIPTypeIPs)]; ok {
+			n, err := strconv.Atoi(v)
+			if err != nil {
+				c.Fatalf("%sannotation %s = %q is not a number", name, terwayTypes.NormalIPTypeIPs, v)
+			}
+			annoIP = n
+		}
+		quantity := func(res string) (int64, bool) {
+			a, okA := got.Status.Allocatable[corev1.ResourceName(res)]
+			cp, okC := got.Status.Capacity[corev1.ResourceName(res)]
+			if !okA && !okC {
+				return 0, false
+			}
+			v := a.Value()
+			if cp.Value() > v {
+				v = cp.Value()
+			}
+			return v, true
+		}
+		if s.LinJun {
+			if annoIP >= 0 && annoIP != s.StaleAnno {
+				c.Fatalf("LingJun node got max-available-ip = %d", annoIP)
+			}
+			return
+		}
+		if exclusive {
+			if annoIP > caps.Slots {
+				c.Fatalf("%sexclusive mode: max-available-ip = %d, the instance can attach %d secondary interfaces", name, annoIP, caps.Slots)
+			}
+			if q, ok := quantity(deviceplugin.ENIResName); ok {
+				if q < 0 || q > int64(caps.Slots) {
+					c.Fatalf("%sexclusive mode: %s = %d, the instance can attach %d secondary interfaces", name, deviceplugin.ENIResName, q, caps.Slots)
+				}
+				c.Label("res:eni")
+			}
+		} else if annoIP > caps.Slots*caps.V4 {
+			c.Fatalf("%smax-available-ip = %d exceeds %d secondary interfaces x %d addresses", name, annoIP, caps.Slots, caps.V4)
+		}
+		if annoIP >= 0 {
+			c.Label("anno:present")
+		} else {
+			c.Label("anno:absent")
+		}
+		if q, ok := quantity(deviceplugin.MemberENIResName); ok {
+			if q < 0 || q > int64(caps.Member) {
+				c.Fatalf("%s%s = %d exceeds the member limit %d of the instance type", name, deviceplugin.MemberENIResName, q, caps.Member)
+			}
+			if q > 0 && (exclusive || !s.Conf.Trunking) {
+				c.Label("res:member-eni-unasked") // not an instance limit; visible in the evidence
+			}
+			c.Label("res:member-eni")
+		} else if trunkInUse {
+			c.Label("trunk-in-use:no-member-res")
+		}
 	}
-	if annoIP >= 0 {
-		c.Label("anno:present")
-	} else {
-		c.Label("anno:absent")
-	}
-	if q, ok := quantity(deviceplugin.MemberENIResName); ok {
-		if q < 0 || q > int64(caps.Member) {
-			c.Fatalf("%s = %d exceeds the member limit %d of the instance type", deviceplugin.MemberENIResName, q, caps.Member)
+
+	pass("", capsA)
+
+	if s.Resize != nil {
+		// the instance comes back as another type: same instance id, same node object,
+		// new instance-type label (kubelet / cloud-controller-manager republish it)
+		cur := &corev1.Node{}
+		if err := cl.Get(ctx, client.ObjectKey{Name: c19NodeName}, cur); err != nil {
+			c.Fatalf("harness: get node: %v", err)
 		}
-		if q > 0 && (exclusive || !s.Conf.Trunking) {
-			c.Label("res:member-eni-unasked") // not an instance limit; visible in the evidence
+		cur.Labels[corev1.LabelInstanceTypeStable] = typeB
+		if err := cl.Update(ctx, cur); err != nil {
+			c.Fatalf("harness: update node label: %v", err)
 		}
-		c.Label("res:member-eni")
-	} else if trunkInUse {
-		c.Label("trunk-in-use:no-member-res")
+		c.Trace("instance resized in place: %+v -> %+v", vecA, *s.Resize)
+		pass("after resize: ", s.Resize.caps())
 	}
 }
 
